@@ -3,7 +3,8 @@
 
 For every seeded/<name>/patch.diff and mutants/<name>.patch: apply it to a scratch worktree of /repo
 (outside /repo and /verif, removed afterwards), run the quick check of the property it breaks and
-require exit status 1 with a VIOLATION line; finally require every claimed check to be silent on the
+require exit status 1 with a VIOLATION line; for every controls/<P1+P2..>-<name>.patch (a behaviour-preserving
+rewrite) require the checks P1, P2, .. to stay silent; finally require every claimed check to be silent on the
 unpatched tree.  Usage: tools/selftest.py [name-substring ...]
 """
 import json
@@ -38,6 +39,18 @@ def main():
         print("%-70s %s  %s  %s" % (name, prop, "DETECTED" if fired else "MISSED (exit %d)" % r.returncode, ",".join(rules)))
         if not fired:
             bad += 1
+    # negative controls: behaviour-preserving rewrites of reviewed code; the named checks must stay silent
+    ctrls = sorted(glob.glob(os.path.join(VERIF, "controls", "*.patch")))
+    if pats:
+        ctrls = [c for c in ctrls if any(p in c for p in pats)]
+    for it in ctrls:
+        props = os.path.basename(it).split("-")[0].split("+")
+        for prop in props:
+            r = subprocess.run([os.path.join(VERIF, "tools", "with_patch.sh"), it, "check", prop], stdout=subprocess.PIPE, stderr=subprocess.STDOUT, text=True)
+            ok = r.returncode == 0 and "VIOLATION" not in r.stdout
+            print("%-70s %s  %s" % (os.path.relpath(it, VERIF), prop, "silent (as required)" if ok else "FALSE ALARM"))
+            if not ok:
+                bad += 1
     if not pats:
         m = json.load(open(os.path.join(VERIF, "MANIFEST.json")))
         for c in m["checks"]:
